@@ -394,16 +394,16 @@ pub fn run(args: &Args) -> i32 {
     let base_menu: Vec<u64> = vec![1, 7, 1, 6, 3, 2, 1];
     let base = model_stream(&base_menu, 3);
     let nwords = base.len() as u64;
-    rep.run("single-faults", nwords * 6 + 1, 120, true, "7-region model (edges, scaler blocks, first/last-tick edges): at every word position {drop it, duplicate it, replace it by each of 3 invalid words, flip the marker's top bit / toggle a timestamp's edge bit}; plus first marker with the top bit set", |idx, loc| {
+    rep.run("single-faults", nwords * 9 + 1, 120, true, "7-region model (edges, scaler blocks, first/last-tick edges): at every word position {drop it, duplicate it, replace it by each of 3 invalid words, flip the marker's top bit / toggle a timestamp's edge bit, corrupt a marker's counter by -4 / +4 / to 0 with the top bit intact}; plus first marker with the top bit set", |idx, loc| {
         let mut ws = base.clone();
         let what;
-        if idx == nwords * 6 {
+        if idx == nwords * 9 {
             if let Some(Word::Marker { top, .. }) = ws.iter_mut().find(|w| matches!(w, Word::Marker { counter: 0, .. })) {
                 *top = true;
             }
             what = json!({"fault": "first marker has the top bit set"});
         } else {
-            let (i, f) = ((idx / 6) as usize, idx % 6);
+            let (i, f) = ((idx / 9) as usize, idx % 9);
             match f {
                 0 => {
                     ws.remove(i);
@@ -426,13 +426,26 @@ pub fn run(args: &Args) -> i32 {
                     ws[i] = Word::Raw(vec![0x3C, 0x00, 0x01, 0xFE]);
                     what = json!({"fault": "invalid word (almost a scaler header)", "at": i});
                 }
-                _ => {
+                5 => {
                     match &mut ws[i] {
                         Word::Marker { top, .. } => *top = !*top,
                         Word::Ts { trailing, .. } => *trailing = !*trailing,
                         _ => {}
                     }
                     what = json!({"fault": "flip marker top bit / edge bit", "at": i, "word": format!("{:?}", base[i])});
+                }
+                _ => {
+                    // counter corrupted, top bit intact (only markers; other words: nothing to do)
+                    if let Word::Marker { counter, .. } = &mut ws[i] {
+                        *counter = match f {
+                            6 => counter.wrapping_sub(4) & 0x7F_FFFF,
+                            7 => *counter + 4,
+                            _ => 0,
+                        };
+                    } else {
+                        return;
+                    }
+                    what = json!({"fault": "marker counter corrupted", "at": i, "word": format!("{:?}", base[i]), "to": format!("{:?}", ws[i])});
                 }
             }
         }
